@@ -445,6 +445,100 @@ def prop_history(case, ctx):
                                 f"seed {seed}: repeated use_dask=True runs differ")
 
 
+# ------------------------------------------------------------------ 3b. dask vs sequential
+
+@st.composite
+def dask_case(draw):
+    """Mixing passive boson-sampling programs (lossless, lossy, partially distinguishable)
+    whose samples genuinely vary, run with shot counts on both sides of typical batch sizes."""
+    d = draw(st.integers(2, 4))
+    n = draw(st.integers(1, 3))
+    occ = [0] * d
+    for _ in range(n):
+        occ[draw(st.integers(0, d - 1))] += 1
+    loss = draw(st.sampled_from(["none", "none", "uniform", "input", "output"]))
+    etas = [draw(st.sampled_from([1.0, 0.9, 0.6, 0.3])) for _ in range(d)]
+    overlap = draw(st.sampled_from([None, None, 1.0, 0.0, 0.5]))
+    if loss in ("input", "output") and overlap not in (None, 1.0):
+        overlap = None
+    k = draw(st.integers(1, d))
+    return {"d": d, "occ": occ, "useed": draw(st.integers(0, 2**32)),
+            "ukind": draw(st.sampled_from(["haar", "haar", "real"])),
+            "loss": loss, "etas": etas, "overlap": overlap,
+            "modes": draw(progs.ordered_modes(d, k)),
+            "shots": draw(st.one_of(st.sampled_from([2, 17, 64, 65, 128, 129, 255, 256, 257,
+                                                     300, 512, 513, 600, 1025]),
+                                    st.integers(1, 1100))),
+            "seed": draw(st.one_of(st.sampled_from([0, 1, 2**31 - 1, 2**63]),
+                                   st.integers(0, 2**32))),
+            "via_setter": draw(st.integers(0, 3)) == 0}
+
+
+def dask_run(case, use_dask):
+    d, occ = case["d"], case["occ"]
+    u = progs.haar_unitary(d, case["useed"], case["ukind"])
+    with pq.Program() as prog:
+        if case["overlap"] is None:
+            pq.Q() | pq.NumberState(occ)
+        else:
+            pq.Q() | pq.DistinguishableNumberState(occ, particle_overlap=case["overlap"])
+        if case["loss"] == "input":
+            for m in range(d):
+                pq.Q(m) | pq.Loss(math.sqrt(case["etas"][m]))
+        pq.Q(*range(d)) | pq.Interferometer(u)
+        if case["loss"] == "output":
+            for m in range(d):
+                pq.Q(m) | pq.Loss(math.sqrt(case["etas"][m]))
+        if case["loss"] == "uniform":
+            pq.Q() | pq.UniformLoss(math.sqrt(case["etas"][0]))
+        pq.Q(*case["modes"]) | pq.ParticleNumberMeasurement()
+    if case["via_setter"]:
+        config = pq.Config(use_dask=use_dask)
+        config.seed_sequence = case["seed"]
+    else:
+        config = pq.Config(use_dask=use_dask, seed_sequence=case["seed"])
+    res = pq.PassiveSimulator(d=d, config=config).execute(prog, shots=case["shots"])
+    return [tuple(int(x) for x in s) for s in res.samples]
+
+
+def prop_dask(case, ctx):
+    with warnings.catch_warnings():
+        warnings.simplefilter("ignore")
+        seq = dask_run(case, False)
+        par = dask_run(case, True)
+        par2 = dask_run(case, True)
+    shots = case["shots"]
+    varied = len(set(seq)) > 1
+    ctx.case(case, varied,
+             ["dask_shots_" + ("le64" if shots <= 64 else "le256" if shots <= 256 else
+                               "le512" if shots <= 512 else "gt512"),
+              "dask_loss_" + case["loss"],
+              "dask_overlap_" + str(case["overlap"])]
+             + (["seed_via_setter"] if case["via_setter"] else []))
+    if len(par) != shots or len(seq) != shots:
+        raise Violation("C11:dask:P:sample-count",
+                        f"{shots} shots requested, sequential gives {len(seq)}, dask {len(par)}")
+    # known finding: with uniform transmission < 1 the loss decisions are drawn from the
+    # generator shared by all shots instead of the per-shot one, so concurrently running
+    # dask tasks race for it; every other passive sampling path is judged strictly
+    eff = [case["etas"][0]] * case["d"] if case["loss"] == "uniform" else case["etas"]
+    if case["loss"] != "none" and len(set(eff)) == 1 and eff[0] < 1.0:
+        ctx.count("dask_uniformly_lossy_region")
+        if par != seq or par2 != par:
+            raise Violation("C11:dask:P:uniformly-lossy:shared-generator-race",
+                            f"seed {case['seed']}, {shots} shots, uniform transmission "
+                            f"{eff[0]}: dask==sequential {par == seq}, dask==dask {par2 == par}")
+        return
+    if par != seq:
+        i = next(i for i, (x, y) in enumerate(zip(par, seq)) if x != y)
+        raise Violation("C11:dask:P:samples-differ-from-sequential",
+                        f"seed {case['seed']}, {shots} shots: first difference at shot {i}: "
+                        f"dask {par[i]}, sequential {seq[i]}")
+    if par2 != par:
+        raise Violation("C11:dask:P:samples-differ-between-runs",
+                        f"seed {case['seed']}, {shots} shots: repeated use_dask=True runs differ")
+
+
 # ------------------------------------------------------------------ 4. seeds matter
 
 @st.composite
@@ -530,6 +624,8 @@ def parts(tier):
              budget_s={"quick": 200, "thorough": 2400}),
         Part("history", prop_history, strategy=history_case(),
              examples={"quick": 500, "thorough": 8000}),
+        Part("dask", prop_dask, strategy=dask_case(),
+             examples={"quick": 160, "thorough": 3000}),
         Part("seeds", prop_seeds, strategy=seeds_case(),
              examples={"quick": 160, "thorough": 3000}),
         Part("threads", prop_threads, kind="enum", cases=threads_enum,
